@@ -1152,7 +1152,7 @@ def run(ctx):
             for case in CORPUS + CORPUS_R2 + CORPUS_FLAT:
                 check_case(ctx, case, tmp)
                 ctx.count("corpus")
-        n = 560 if ctx.quick() else 48000 // wcount
+        n = 520 if ctx.quick() else 48000 // wcount
         poison_process(ctx, tmp)
         for k in range(n):
             if k == n // 2:
